@@ -23,16 +23,17 @@ from .lexer import KEYWORDS_1364
 
 
 class Diag:
-    __slots__ = ('code', 'module', 'detail')
+    __slots__ = ('code', 'module', 'detail', 'info')
 
-    def __init__(self, code, module, detail):
+    def __init__(self, code, module, detail, info=None):
         self.code, self.module, self.detail = code, module, detail
+        self.info = info or {}
 
     def __repr__(self):
         return '%s[%s]: %s' % (self.code, self.module, self.detail)
 
     def as_dict(self):
-        return dict(code=self.code, module=self.module, detail=self.detail)
+        return dict(code=self.code, module=self.module, detail=self.detail, info=self.info)
 
 
 class Sym:
@@ -117,8 +118,8 @@ class Design:
         for name in self.order:
             self._check_module(self.mods[name])
 
-    def d(self, code, mod, detail):
-        self.diags.append(Diag(code, mod, detail))
+    def d(self, code, mod, detail, **info):
+        self.diags.append(Diag(code, mod, detail, info))
 
     # ---- declarations
     def _range(self, rng, mi, what):
@@ -134,7 +135,9 @@ class Design:
     def _declare(self, mi, sym):
         if sym.name in mi.syms:
             old = mi.syms[sym.name]
-            self.d('duplicate_declaration', mi.name, '%s declared as %s and again as %s' % (sym.name, old.kind + ('/' + old.dir if old.dir else ''), sym.kind))
+            self.d('duplicate_declaration', mi.name, '%s declared as %s and again as %s' % (
+                sym.name, old.kind + ('/' + old.dir if old.dir else ''), sym.kind + ('/' + sym.dir if sym.dir else '')),
+                name=sym.name, first=old.kind, first_dir=old.dir, second=sym.kind, second_dir=sym.dir)
             return
         mi.syms[sym.name] = sym
 
@@ -236,6 +239,12 @@ class Design:
                     b = const_eval(e.lsb, mi.params)
                     if a is not None and b is not None and not (s.lsb <= min(a, b) and max(a, b) < s.lsb + s.width):
                         self.d('select_out_of_range', mi.name, '%s[%d:%d] on %d-bit net' % (s.name, a, b, s.width))
+        if isinstance(e, P.Repl):
+            n = const_eval(e.count, mi.params)
+            if n is None:
+                self.d('non_constant_replication', mi.name, repr(e.count))
+            elif n < 0:
+                self.d('negative_replication', mi.name, 'replication count %d' % n)
         for k in getattr(e, '__slots__', ()):
             v = getattr(e, k)
             if isinstance(v, P.Node):
@@ -449,7 +458,7 @@ class Design:
             seenp = set()
             for pn, e in inst.conns:
                 if pn in seenp:
-                    self.d('port_connected_twice', name, '%s.%s' % (inst.name, pn))
+                    self.d('port_connected_twice', name, '%s.%s' % (inst.name, pn), inst=inst.name, port=pn, target=inst.module)
                 seenp.add(pn)
             if target is None:
                 if inst.module not in self.blackboxes:
@@ -471,7 +480,7 @@ class Design:
             for pn, e in inst.conns:
                 ps = target.syms.get(pn)
                 if ps is None or ps.dir is None:
-                    self.d('port_not_found', name, 'instance %s of %s has no port %s' % (inst.name, inst.module, pn))
+                    self.d('port_not_found', name, 'instance %s of %s has no port %s' % (inst.name, inst.module, pn), inst=inst.name, target=inst.module, port=pn)
                     if e is not None:
                         self._use(mi, e, reads)
                     continue
@@ -481,7 +490,8 @@ class Design:
                     continue
                 w = self.expr_width(mi, e)
                 if w is not None and w != ps.width:
-                    self.d('port_width_mismatch', name, '%s.%s is %d bits, connected expression is %d bits' % (inst.name, pn, ps.width, w))
+                    self.d('port_width_mismatch', name, '%s.%s is %d bits, connected expression is %d bits' % (inst.name, pn, ps.width, w),
+                           inst=inst.name, port=pn, target=inst.module)
                 if ps.dir == 'input':
                     self._use(mi, e, reads)
                 else:
@@ -514,10 +524,11 @@ class Design:
                 continue
             if s.kind == 'reg' or s.kind == 'integer':
                 blocks = set(who for (_, _, kind, who) in dl if kind == 'always')
-                if len(blocks) > 1:
+                # a memory written from two always blocks is the usual true-dual-port RAM template: not judged
+                if len(blocks) > 1 and s.arr is None:
                     self.d('reg_multiple_always', name, '%s assigned in %s' % (n, sorted(blocks)))
                 if s.dir == 'output' and not dl and s.kind == 'reg' and not any(x == n for x, _ in mi.reg_inits):
-                    self.d('undriven_net', name, 'output reg %s is never assigned' % n)
+                    self.d('undriven_net', name, 'output reg %s is never assigned' % n, net=n, dir=s.dir)
                 continue
             # wires: overlapping drivers
             for i in range(len(dl)):
@@ -527,7 +538,7 @@ class Design:
                         self.d('multiple_drivers', name, '%s driven by %s and %s' % (n, a[3], b[3]))
             if not dl and n not in maybe_driven:
                 if s.dir == 'output' or n in reads:
-                    self.d('undriven_net', name, '%s%s has no driver' % ('output ' if s.dir == 'output' else '', n))
+                    self.d('undriven_net', name, '%s%s has no driver' % ('output ' if s.dir == 'output' else '', n), net=n, dir=s.dir)
 
 
 def check_design(text, blackboxes=()):
